@@ -8,7 +8,7 @@ import random
 import shutil
 
 from .. import boot
-from ..result import Result, h64
+from ..result import Result, h64, keep_going
 
 ID = 'C18'
 LEVEL = 'exploration'
@@ -336,7 +336,7 @@ def run_shard(spec):
     rng = random.Random(spec['seed'])
     j = setup()
     n = 0
-    while res.elapsed() < spec['budget']:
+    while keep_going(res, spec):
         bad, case = run_journal(j, rng, res)
         n += 1
         res.count('evaluations')
